@@ -507,6 +507,29 @@ m("C20-watch-plain-receive", "C20", [(CACHE,
   "\t\tcase event, ok := <-watch.Events:\n\t\t\tif !ok {\n\t\t\t\treturn\n\t\t\t}\n",
   "\t\tcase event := <-watch.Events:\n")], "no exit on closed channels: the goroutine of a stopped watch spins forever")
 
+# ---------------------------------------------------------------- C19
+ROOT = "cmd/cdi/cmd/root.go"
+API = "cmd/cdi/cmd/cdi-api.go"
+m("C19-revert-D11", "C19", [(ROOT,
+  "\t\t// configure the default cache, which is what all commands use\n\t\terr := cdi.Configure(\n\t\t\tcdi.WithSpecDirs(specDirs...),\n\t\t)",
+  "\t\t_, err := cdi.NewCache(\n\t\t\tcdi.WithSpecDirs(specDirs...),\n\t\t)")], "revert of fix D11: the option goes to a throw-away cache")
+m("C19-resolve-own-cache", "C19", [(API,
+  "\tcache = cdi.GetDefaultCache()\n\n\tfor _, ociSpecFile := range ociSpecFiles {",
+  "\tcache, _ = cdi.NewCache()\n\n\tfor _, ociSpecFile := range ociSpecFiles {")], "revert of fix D11 (second half): 'resolve' queries an unconfigured cache")
+m("C19-validate-exit-zero", "C19", [("cmd/cdi/cmd/validate.go",
+  "\t\tos.Exit(1)\n\t},", "\t\tif len(cdiErrors) > 1 {\n\t\t\tos.Exit(1)\n\t\t}\n\t},")], "'cdi validate' exits 0 when exactly one file is in error")
+m("C19-inject-print-on-error", "C19", [(API,
+  "\tif err != nil {\n\t\treturn fmt.Errorf(\"OCI device injection failed: %w\", err)\n\t}\n\n\tfmt.Printf(\"Updated OCI Spec:\\n\")",
+  "\tif err != nil && len(unresolved) == 0 {\n\t\treturn fmt.Errorf(\"OCI device injection failed: %w\", err)\n\t}\n\n\tfmt.Printf(\"Updated OCI Spec:\\n\")")], "with unresolved devices the (unmodified) spec is printed as 'updated' and the command succeeds")
+m("C19-cmdvalidate-last-doc", "C19", [("cmd/validate/validate.go",
+  "\t\t\tfmt.Printf(\"%s: document is valid.\\n\", docFile)\n\t\t}",
+  "\t\t\tfmt.Printf(\"%s: document is valid.\\n\", docFile)\n\t\t\texitCode = 0\n\t\t}")], "the exit status reflects only the last document")
+m("C19-configure-only-if-exists", "C19", [(ROOT,
+  "\tif len(specDirs) > 0 {\n", "\tif len(specDirs) > 1 {\n")], "a single --spec-dirs value is ignored")
+m("C19-listdevices-other-cache", "C19", [(API,
+  "func cdiListDevices(verbose bool, format string) {\n\tvar (\n\t\tcache   = cdi.GetDefaultCache()",
+  "func cdiListDevices(verbose bool, format string) {\n\tvar (\n\t\tcache, _ = cdi.NewCache(cdi.WithAutoRefresh(false))")], "'devices' lists from a private cache on the default directories")
+
 
 def emit():
     os.makedirs(os.path.join(VERIF, "mutants"), exist_ok=True)
